@@ -188,6 +188,7 @@ let show_rout = function
   | ROExhausted -> "x" | ROOk -> "ok" | ROReserved -> "res"
   | RONum k -> "n" ^ decimal_of_n k
   | RONoPool -> "nopool"
+  | ROOverlap -> "ovl"
   | ROList l -> "o" ^ String.concat "" (List.map (fun k -> ":" ^ tok_of_key k) l)
 
 let parse_profiles toks =
